@@ -53,8 +53,8 @@ class ConcProp:
             print(out_h[-3000:])
             print("[%s] ERROR: the harness does not build against the repository's working tree" % pid)
             write_evidence(pid, tier, seed, dict(obligations=proof["obligations"], discharged=0, checker_cmd="make Props/%s.vo" % pid,
-                                                 trusted_base=TRUSTED, explanation="harness build failed"), self.assumptions, time.time() - t0, 0)
-            return 2
+                                                 trusted_base=TRUSTED, explanation="harness build failed"), self.assumptions, time.time() - t0, 1)
+            return harness_broken(pid, tier, seed, out_h)
         r = random.Random(seed)
         if replay:
             rp = json.load(open(replay))
